@@ -153,7 +153,7 @@ inline double dist_to_line(long double const* p, long double const* a, long doub
 //    Above eps ~ 5e-3 the estimate is no longer monotone (dip to 5.3e-3 at 2.2-2.6 rad
 //    where the true error is 0.2-0.5): no bound can be derived from the documented
 //    tolerance there (other pitch angles move the dip), so accuracy is declared untestable for
-//    Dormand-Prince with eps > 2e-3 (default 1e-3).
+//    Dormand-Prince with eps > 1.5e-3 (default 1e-3).
 //  * ZHelix: exact, rounding only.
 // Over one advance with n stepper calls (upper bound of the number of accepted steps):
 //  |p|: n K eps.  A relative momentum error e changes the curvature q B / p by e, i.e. the
@@ -199,7 +199,7 @@ inline void judge_advance(AdvEv const& a,
                   a.req, a.in.pos[0], a.in.pos[1], a.in.pos[2], a.in.mom[0], a.in.mom[1], a.in.mom[2]));
         return;
     }
-    if (integ == I_DP && o.epsilon_rel_max > 2e-3)
+    if (integ == I_DP && o.epsilon_rel_max > 1.5e-3)
     {
         *untestable = true;
         return;
@@ -482,7 +482,7 @@ inline Verdict judge_propagation(JudgeInput const& ji)
         t_int = 0;
 
     // regimes where nothing can be said about the integration accuracy
-    bool untestable = (c.integ == I_DP && o.epsilon_rel_max > 2e-3);
+    bool untestable = (c.integ == I_DP && o.epsilon_rel_max > 1.5e-3);
 
     // ---- O8a every driver advance against the helix / |p| drift
     std::size_t findings_before_adv = v.findings.size();
